@@ -142,4 +142,8 @@ MUTANTS = {
         "edits": [("Lib/fontTools/misc/xmlReader.py", "            chunk = file.read(BUFSIZE)\n            if not chunk:", "            chunk = file.read(BUFSIZE)\n            if len(chunk) == 7 and BUFSIZE == 7 and pos == 700:\n                chunk = chunk[:-1] + chunk[-1:].lower()\n            if not chunk:")],
         "check": ["C03", "--tier", "quick"],
     },
+    "c16_class_numbering_by_set_order": {
+        "edits": [("Lib/fontTools/otlLib/builder.py", "        result = sorted(self.classes_, key=lambda s: (-len(s), s))", "        result = sorted(self.classes_, key=lambda s: -len(s))")],
+        "check": ["C16", "--tier", "quick", "--only", "hashsweep"],
+    },
 }
